@@ -212,6 +212,61 @@ Section LearnCor.
     destruct (trace_iterate ao n draws st it (nth_error_In _ _ Hi)) as (prev & Hit).
     exists (fi_Xv it). unfold X, Y. rewrite Hs, Hnd. cbn [fst snd]. rewrite Hit at 1. reflexivity.
   Qed.
+  (* the same two statements for any accuracy domain (in particular the binary64 one), in terms of
+     the domain's own [>]: no iteration run beats the kept one, the kept one beats every earlier one *)
+  Theorem learn_full_keeps_best_gen {A} (ao : acc_ops A) (rk : A -> Z) n draws (st : lstate nat) :
+    1 <= n ->
+    let r := learn_full ltb zero top w ao n draws st in
+    rk_compat ao rk (fr_trace r) ->
+    let b := r_best (fr_res r) in
+    r_iters (fr_res r) = length (fr_trace r) /\ 1 <= length (fr_trace r) <= n /\
+    exists itb, nth_error (fr_trace r) b = Some itb /\
+      (forall i it, nth_error (fr_trace r) i = Some it -> ao_gt ao (fi_acc it) (fi_acc itb) = false) /\
+      (forall i it, i < b -> nth_error (fr_trace r) i = Some it -> ao_gt ao (fi_acc itb) (fi_acc it) = true).
+  Proof.
+    intros Hn r Hrk b.
+    destruct (learn_full_iters ltb zero top w ao n draws st Hn) as (Hit & Hlen).
+    fold r in Hit, Hlen. split; [exact Hit|]. split; [exact Hlen|].
+    set (tr := fr_trace r) in *. set (its := map (enc_iter rk) tr).
+    assert (Hne : its <> []).
+    { unfold its. destruct tr; [cbn in Hlen; lia | discriminate]. }
+    pose proof (learn_keeps_best its n draws st Hne) as H. cbv zeta in H.
+    assert (Hres : learn its n draws st = fr_res r)
+      by (symmetry; apply (learn_full_refines_gen ltb zero top w ao rk n draws st Hrk)).
+    rewrite Hres in H.
+    destruct H as (_ & Hb & Hle & Hlt). fold b in Hb, Hle, Hlt.
+    rewrite Hit in Hb, Hle.
+    destruct (nth_error tr b) as [itb|] eqn:Eb; [|apply nth_error_None in Eb; lia].
+    exists itb. split; [reflexivity|].
+    assert (Hmap : map it_acc its = map (fun it => rk (fi_acc it)) tr).
+    { unfold its. rewrite map_map. reflexivity. }
+    rewrite Hmap in Hle, Hlt.
+    assert (Hinb : In itb tr) by (eapply nth_error_In; eauto).
+    split.
+    - intros i it Hi.
+      assert (Hil : i < length tr) by (apply nth_error_Some; rewrite Hi; discriminate).
+      specialize (Hle i Hil).
+      rewrite (nth_map_error _ tr i it 0%Z Hi), (nth_map_error _ tr b itb 0%Z Eb) in Hle.
+      rewrite <- (Hrk it itb (nth_error_In _ _ Hi) Hinb). apply Z.ltb_ge. exact Hle.
+    - intros i it Hib Hi. specialize (Hlt i Hib).
+      rewrite (nth_map_error _ tr i it 0%Z Hi), (nth_map_error _ tr b itb 0%Z Eb) in Hlt.
+      rewrite <- (Hrk itb it Hinb (nth_error_In _ _ Hi)). apply Z.ltb_lt. exact Hlt.
+  Qed.
+
+  Theorem learn_full_snapshot_gen {A} (ao : acc_ops A) (rk : A -> Z) n draws (st : lstate nat) :
+    1 <= n ->
+    let r := learn_full ltb zero top w ao n draws st in
+    let sb := state_at (map (enc_iter rk) (fr_trace r)) (r_best (fr_res r)) draws st in
+    r_snap (fr_res r) = (l_Xt sb, l_Yt sb) /\
+    fr_nodes r = fst (predict_on (l_Xt sb) (fit_on (l_Xt sb) (l_Yt sb)) (l_Xv sb)).
+  Proof.
+    intros Hn r sb.
+    destruct (learn_full_kept ltb zero top w ao n draws st Hn) as (it & Hi & Hs & Hnd).
+    fold r in Hi, Hs, Hnd.
+    pose proof (learn_full_trace_spec ltb zero top w ao rk n draws st _ it Hi) as H.
+    fold r in H. fold sb in H. rewrite Hs, Hnd, H. split; reflexivity.
+  Qed.
+
   (* what the records fed to Model/Learn.learn are *)
   Theorem learn_full_records n draws (st : lstate nat) :
     let r := learn_full ltb zero top w QAcc n draws st in
